@@ -129,19 +129,19 @@ def find_nearest_index_satisfying_monotonic_condition(arr: List[TrajectoryData],
 
     """
     # Find the position where target_time would fit
-    pos = bisect.bisect_left(BisectWrapper(arr, value_getter), target_value)
+    wrapper = BisectWrapper(arr, value_getter)
+    pos = bisect.bisect_left(wrapper, target_value)
 
     # Compare neighbors to find the nearest index
     if pos == 0:
         return 0
-    if pos == len(arr):
-        return len(arr) - 1
     before = pos - 1
     after = pos
-    if abs(value_getter(arr[before]) - target_value) <= abs(
+    if pos == len(arr) or abs(value_getter(arr[before]) - target_value) <= abs(
         value_getter(arr[after]) - target_value
     ):
-        return before
+        # several rows may carry that same value: the smaller index wins the tie
+        return bisect.bisect_left(wrapper, value_getter(arr[before]))
     return after
 
 
